@@ -1,15 +1,17 @@
-\* C01 leg A thorough, 4 replicas: all subsets of a 4-point grid with at most 2 samples per replica
-\* (11^4 = 14 641 layouts + 11 identical), 3 seek targets
+\* C01 leg A thorough, 4 replicas: at most 2 samples per replica on a 3-point grid (7^4 = 2 401
+\* layouts + 7 identical), readers with at most one Seek (3 targets)
 SPECIFICATION Spec
 CONSTANTS InitPen = 5
-          Grid = {0, 1, 6, 11}
+          Grid = {0, 1, 7}
           NumReps = 4
           MaxLen = 2
           Ctr = FALSE
           Starts = {0}
           Incs = {0}
-          Targets = {0, 5, 11}
+          Targets = {0, 5, 8}
           EmitMod = 1
+          MaxSeeks = 1
+          Kinds = {"f"}
 INVARIANTS C01_StrictlyIncreasing C01_FromSomeReplica C01_UnchangedIfIdentical C01_SeekIsSuffix
-           StepwiseEqualsFunctional BoundedOutput OnlyDoneIsFinal
+           C01_FollowsFullStream StepwiseEqualsFunctional BoundedOutput OnlyDoneIsFinal
 CHECK_DEADLOCK FALSE
